@@ -3,7 +3,6 @@ package props
 import (
 	"fmt"
 	"os"
-	"strconv"
 	"strings"
 	"testing"
 
@@ -21,6 +20,10 @@ type caseC01 struct {
 	Layout gen.Layout `json:"layout"`
 	Src    string     `json:"src"`
 	Mode   string     `json:"mode"`
+	// the case is the long-operand family within a few bytes of the largest
+	// encodable jump: the compiler may refuse it ("jump too long"), which is
+	// an implementation limit, not an evaluation result
+	NearLimit bool `json:"nearlimit,omitempty"`
 }
 
 // exprStats walks an expression for the non-trivial rule.
@@ -103,19 +106,7 @@ func genC01(t *rapid.T) caseC01 {
 	// (an instruction's operand byte then takes every small value, also those
 	// that coincide with an opcode)
 	if gen.Chance(t, 15, "prelude") {
-		k := gen.Uniform(t, 41, "preludeN")
-		if gen.Chance(t, 30, "preludeBig") {
-			k = gen.Uniform(t, 301, "preludeN2")
-		}
-		for i := 0; i < k; i++ {
-			var lit *gen.Expr
-			if gen.Chance(t, 70, "preludeConst") {
-				lit = &gen.Expr{K: "int", T: strconv.Itoa(100000 + i)}
-			} else {
-				lit = &gen.Expr{K: "nil"}
-			}
-			top = append(top, &gen.Stmt{K: "var", Name: "z" + strconv.Itoa(i), E: lit})
-		}
+		top = append(top, gen.Prelude(t)...)
 	}
 	// variables of every dynamic type
 	vnames := []string{"a", "b", "c"}
@@ -132,11 +123,20 @@ func genC01(t *rapid.T) caseC01 {
 		g.SetType(n, ty)
 	}
 	e := g.Expr("?", cfg.ExprDepth)
+	longOp := ""
+	nearLimit := false
 	if gen.Chance(t, 2, "longoperand") {
 		// a short-circuit operator over an operand of hundreds or thousands
 		// of bytes of code (jump distances beyond one byte), skipped or taken
 		op := gen.Pick(t, "scop", []string{"and", "or"})
-		e = gen.JumpLimitExpr(op, gen.Uniform(t, 5, "prefix"), gen.Pick(t, "terms", []int{100, 127, 128, 129, 200, 1000, 5000}))
+		longOp = op
+		terms := gen.Pick(t, "terms", []int{100, 127, 128, 129, 200, 1000, 5000})
+		if gen.Chance(t, 8, "nearlimit") {
+			// jump distances within a few bytes of the largest encodable one
+			terms = 32767 - gen.Uniform(t, 12, "below")
+			nearLimit = true
+		}
+		e = gen.JumpLimitExpr(op, gen.Uniform(t, 5, "prefix"), terms)
 		if gen.Bool(t, "taken") {
 			// make the left operand let the right one be evaluated
 			if op == "and" {
@@ -151,6 +151,10 @@ func genC01(t *rapid.T) caseC01 {
 				e.A = &gen.Expr{K: "int", T: "1000"}
 			}
 		}
+	}
+	if longOp != "" {
+		// in one of six contexts (operand of the other operator, a chain, under not)
+		e = gen.WrapShortCircuit(e, longOp, gen.Uniform(t, 6, "wrap"))
 	}
 	mode := gen.Pick(t, "mode", []string{"print", "var", "field"})
 	switch mode {
@@ -172,7 +176,7 @@ func genC01(t *rapid.T) caseC01 {
 	r := gen.RenderProg(p)
 	lay := gen.GenLayout(t, r.Toks, gen.LayoutOpts{Plain: 85})
 	src, _ := renderChecked(r.Toks, lay)
-	return caseC01{Prog: p, Layout: lay, Src: src, Mode: mode}
+	return caseC01{Prog: p, Layout: lay, Src: src, Mode: mode, NearLimit: nearLimit}
 }
 
 // mainExpr finds the expression under test again (for the statistics).
@@ -212,6 +216,9 @@ func checkC01(c caseC01) (viol string, nontrivial bool, feats []string) {
 		feats = append(feats, "outcome:ok")
 	}
 	a := interpret(c.Src)
+	if c.NearLimit && a.Err != nil && !isRuntimeErr(a.Err) && strings.Contains(a.Log, "jump too long") {
+		return "", false, append(feats, "skipped:jump-limit-exceeded")
+	}
 	return compareOutcome(o, a), nontrivial, feats
 }
 
